@@ -1772,6 +1772,9 @@ fn static_damage(r: &mut Rng, g: &mut Generated, profile: Profile) -> Option<&'s
                 (" \"é\\q\"; ", None, 0),
                 (" \"\\x\"; ", None, 0),
                 (" \"ab\\u{110000}\"; ", None, 0),
+                // found by the validation pass only (the parser accepts it)
+                (" duration dq = 10 xs; ", None, 0),
+                (" delay[3 µz] $0; ", None, 0),
                 // bad escapes whose last character is multi-byte
                 (" \"\\é\"; ", None, 0),
                 (" \"ab\\€c\"; ", None, 0),
